@@ -283,7 +283,12 @@ fn oracle(case: &Case) -> Report {
         return rep;
     }
     // ---- xlsb
-    let names: Vec<(String, String)> = case.names.iter().map(|m| (m.name.clone(), ref_text(case, m))).collect();
+    let mut names: Vec<(String, String)> = case.names.iter().map(|m| (m.name.clone(), ref_text(case, m))).collect();
+    // one more name whose formula mentions the first name (PtgName): First*2
+    let derived = (!case.names.is_empty()).then(|| ("Twice_1".to_string(), format!("{}*2", case.names[0].name)));
+    if let Some(d) = &derived {
+        names.push(d.clone());
+    }
     let xtis12: Vec<(i32, i32)> = std::iter::once((-2, -2)).chain((0..n).rev().map(|i| (i as i32, i as i32))).collect();
     let bdoc = bb::XlsbDoc {
         sheets: case
@@ -303,7 +308,12 @@ fn oracle(case: &Case) -> Report {
             .collect(),
         styles: Some(bb::BbStyles { fmts: vec![], fonts: vec![], style_xfs: vec![0], xfs: vec![0, 14] }),
         date1904: case.date1904,
-        names: case.names.iter().map(|m| (m.name.clone(), biff12_ref(xti_for(case, m.sheet as usize % n), m))).collect(),
+        names: case
+            .names
+            .iter()
+            .map(|m| (m.name.clone(), biff12_ref(xti_for(case, m.sheet as usize % n), m)))
+            .chain(derived.iter().map(|d| (d.0.clone(), vec![0x23, 1, 0, 0, 0, 0x1E, 2, 0, 0x05])))
+            .collect(),
         xtis: xtis12,
         book_blocks: case.wide,
         ..Default::default()
@@ -345,13 +355,19 @@ fn oracle(case: &Case) -> Report {
         xfs: vec![0, 14],
         date1904: if case.date1904 { Some(true) } else if case.wide % 2 == 0 { None } else { Some(false) },
         codepage: Some(1200),
-        names: case.names.iter().map(|m| b8::BName { name: m.name.clone(), wide: m.wide, rgce: biff8_ref(xti_for(case, m.sheet as usize % n), m) }).collect(),
+        names: case
+            .names
+            .iter()
+            .map(|m| b8::BName { name: m.name.clone(), wide: m.wide, rgce: biff8_ref(xti_for(case, m.sheet as usize % n), m) })
+            .collect(),
         xtis: xtis8,
         junk: case.wide,
         ..Default::default()
     };
+    // (the xls reader decodes only reference tokens in defined names: the derived name is xlsb only)
+    let xls_names: Vec<(String, String)> = names.iter().filter(|n| derived.as_ref().map_or(true, |d| d.0 != n.0)).cloned().collect();
     match crate::props::c02::open_xls(b8::encode(&sdoc)) {
-        Ok(mut wb) => check_meta(&mut wb, case, "xls", &names, &mut rep),
+        Ok(mut wb) => check_meta(&mut wb, case, "xls", &xls_names, &mut rep),
         Err(e) => rep.fail(format!("xls: {e}")),
     }
     if rep.failed() {
